@@ -29,9 +29,12 @@ type c02Transcript struct {
 	// the first protected frames of the opposite direction - what the RECEIVER itself
 	// sent - for reflection faults: its own frame k handed back at any position
 	otherFrames [][]byte
-	pre         []byte // bytes the receiver must consume before the faulted leg (BA: nothing; see mkRecv)
-	dir         string
-	long        bool
+	// payload of every frame of the faulted direction (for the frame-at-a-time receive
+	// API): taken from an unfaulted run and checked against msgs (see framesView)
+	framePlain [][]byte
+	pre        []byte // bytes the receiver must consume before the faulted leg (BA: nothing; see mkRecv)
+	dir        string
+	long       bool
 }
 
 var c02Script = [][][]byte{
@@ -203,6 +206,48 @@ func (t *c02Transcript) split() {
 
 // msgIndexAt returns the index of the message that owns wire offset pos
 // (len(msgs) when pos is at/after the end of the wire).
+// framesView fills framePlain by reading the unfaulted wire one frame at a time and
+// checks that, grouped by the end flags on the wire, it is exactly msgs.
+func (t *c02Transcript) framesView(mk func() *stream.Stream) error {
+	ctx := context.Background()
+	rcv := mk()
+	rcv.GetConnection().(*netsim.Buf).R = append([]byte(nil), t.wire...)
+	fr, _ := refcodec.ParseFrames(t.wire)
+	var cur []byte
+	mi := 0
+	for _, f := range fr {
+		b, err := rcv.ReceiveFrame(ctx)
+		if err != nil {
+			return fmt.Errorf("unfaulted frame-at-a-time read failed: %v", err)
+		}
+		if b == nil {
+			b = []byte{}
+		}
+		t.framePlain = append(t.framePlain, b)
+		cur = append(cur, b...)
+		if f.End != 0 {
+			if mi >= len(t.msgs) || !bytes.Equal(cur, t.msgs[mi]) {
+				return fmt.Errorf("frame-at-a-time view disagrees with the sent messages at message %d", mi)
+			}
+			mi, cur = mi+1, nil
+		}
+	}
+	if mi != len(t.msgs) {
+		return fmt.Errorf("frame-at-a-time view has %d messages, sent %d", mi, len(t.msgs))
+	}
+	return nil
+}
+
+func (t *c02Transcript) frameIndexAt(pos int) int {
+	fr, _ := refcodec.ParseFrames(t.wire)
+	for i, f := range fr {
+		if pos < f.Off+5+int(f.Len) {
+			return i
+		}
+	}
+	return len(fr)
+}
+
 func (t *c02Transcript) msgIndexAt(pos int) int {
 	fr, _ := refcodec.ParseFrames(t.wire)
 	mi := 0
@@ -236,16 +281,21 @@ func c02Judge(res *vlib.Result, t *c02Transcript, mk func() *stream.Stream, R st
 		return
 	}
 	k := t.msgIndexAt(pos)
+	exp := t.msgs
+	if R == "frames" {
+		// frame-at-a-time API: every frame payload is a delivery unit
+		k, exp = t.frameIndexAt(pos), t.framePlain
+	}
 	rcv := mk()
 	buf := rcv.GetConnection().(*netsim.Buf)
 	buf.R = append([]byte(nil), wire...)
 	res.Nontrivial = 1
 	var delivered [][]byte
 	var rerr error
-	for i := 0; i < len(t.msgs)+3; i++ {
+	for i := 0; i < len(exp)+3; i++ {
 		n := 0
-		if i < len(t.msgs) {
-			n = len(t.msgs[i])
+		if i < len(exp) {
+			n = len(exp[i])
 		}
 		var m []byte
 		var err error
@@ -256,6 +306,8 @@ func c02Judge(res *vlib.Result, t *c02Transcript, mk func() *stream.Stream, R st
 			m, err = message.NewMessageFromStream(rcv).GetRemainingBytes(ctx)
 		case "readmsg":
 			m, err = c01Recv(rcv, "readmsgall", n)
+		case "frames":
+			m, err = rcv.ReceiveFrame(ctx)
 		}
 		if err != nil {
 			rerr = err
@@ -269,13 +321,13 @@ func c02Judge(res *vlib.Result, t *c02Transcript, mk func() *stream.Stream, R st
 	key := func(kind string) string { return fmt.Sprintf("C02/%s/%s/%s", kind, faultClass, R) }
 	// delivered must be a prefix of msgs
 	for i, d := range delivered {
-		if i >= len(t.msgs) {
-			res.Violate(key("extra-message"), "dir=%s: receiver delivered %d messages, only %d were sent (extra: %q)", t.dir, len(delivered), len(t.msgs), trunc(d))
+		if i >= len(exp) {
+			res.Violate(key("extra-message"), "dir=%s: receiver delivered %d messages, only %d were sent (extra: %q)", t.dir, len(delivered), len(exp), trunc(d))
 			res.Outcome("VIOLATION-extra")
 			return
 		}
-		if !bytes.Equal(d, t.msgs[i]) {
-			res.Violate(key("altered-message"), "dir=%s: message %d delivered as %q, sent %q (fault at wire offset %d, message %d)", t.dir, i, trunc(d), trunc(t.msgs[i]), pos, k)
+		if !bytes.Equal(d, exp[i]) {
+			res.Violate(key("altered-message"), "dir=%s: message %d delivered as %q, sent %q (fault at wire offset %d, message %d)", t.dir, i, trunc(d), trunc(exp[i]), pos, k)
 			res.Outcome("VIOLATION-altered")
 			return
 		}
@@ -403,7 +455,7 @@ func c02Ops() []c02Op {
 func C02Plan() *vlib.Plan {
 	p := &vlib.Plan{
 		Property: "C02", Level: "fault_enumeration",
-		Rule:   "E-FAULT: recorded AES-GCM transcripts (3-frame, empty, 2-frame, 1-frame message; thorough adds a 5000-byte multi-frame message) in both directions (and once after a PutSecret/GetSecret exchange on the already encrypting stream) x every single fault: each bit of every header/IV/ciphertext/tag flipped, truncation at every byte, every frame dropped/duplicated/swapped/replayed later, length fields +-1/+-16, a forged frame (7 lengths x 5 end flags x 2 bodies) a cross-direction frame inserted at every position, and each of the receiver's own first 7 protected frames reflected back at every position; thorough: all ordered pairs of frame-level faults. 3 receive APIs. Non-trivial = the mutated wire differs from the recorded one and was fed to the receiver; case ids are distinct by construction.",
+		Rule:   "E-FAULT: recorded AES-GCM transcripts (3-frame, empty, 2-frame, 1-frame message; thorough adds a 5000-byte multi-frame message) in both directions (and once after a PutSecret/GetSecret exchange on the already encrypting stream) x every single fault: each bit of every header/IV/ciphertext/tag flipped, truncation at every byte, every frame dropped/duplicated/swapped/replayed later, length fields +-1/+-16, a forged frame (7 lengths x 5 end flags x 2 bodies) a cross-direction frame inserted at every position, and each of the receiver's own first 7 protected frames reflected back at every position; thorough: all ordered pairs of frame-level faults. 4 receive APIs (whole message, typed remaining bytes, ReadMessage, and frame-at-a-time ReceiveFrame). Non-trivial = the mutated wire differs from the recorded one and was fed to the receiver; case ids are distinct by construction.",
 		Assume: []string{"the receiver learns the peer IV from the wire, so a recorded transcript replays deterministically", "Go crypto/aes+cipher (GCM) trusted"},
 	}
 	p.Gen = func(tier string, yield func(vlib.Case)) {
@@ -421,8 +473,19 @@ func C02Plan() *vlib.Plan {
 				continue
 			}
 			// sanity: the unfaulted transcript is delivered whole (not a fault case)
-			for _, R := range []string{"complete", "typed", "readmsg"} {
+			if err := t.framesView(mk); err != nil {
+				yield(vlib.Case{ID: "record-frames/" + dir, Run: func() *vlib.Result {
+					r := &vlib.Result{}
+					r.Violate("C02/harness-record", "%v", err)
+					return r
+				}})
+				continue
+			}
+			for _, R := range []string{"complete", "typed", "readmsg", "frames"} {
 				R := R
+				if R == "frames" {
+					goto faults
+				}
 				yield(vlib.Case{ID: fmt.Sprintf("%s/%s/baseline", dir, R), Run: func() *vlib.Result {
 					res := &vlib.Result{Evals: 1}
 					rcv := mk()
@@ -436,6 +499,7 @@ func C02Plan() *vlib.Plan {
 					res.Outcome("baseline-ok")
 					return res
 				}})
+			faults:
 				// bit flips, batched per byte
 				for off := 0; off < len(t.wire); off++ {
 					off := off
